@@ -63,7 +63,13 @@ func register(name string, g gen, nontrivial func(in lcw.Input, obs []lcw.StepOb
 					count++
 					continue
 				}
-				for _, in := range g(rng.New(sub), tier) {
+				inputs := []lcw.Input(nil)
+				if calls%4 == 1 { // every fourth draw: the shared random-history stream
+					inputs = []lcw.Input{history(rng.New(sub))}
+				} else {
+					inputs = g(rng.New(sub), tier)
+				}
+				for _, in := range inputs {
 					c, err := run(in)
 					if err != nil {
 						panic(err)
@@ -207,6 +213,83 @@ func priorMounts(r *rng.R, ws lcw.WorldSpec, cfg lcw.Cfg, disturb bool) []lcw.St
 		}
 	}
 	return steps
+}
+
+// history: a random sequence of commands of every kind on a random world -- the stream shared by all
+// layercake-command properties (each predicate is evaluated on every step of every history).  It
+// reaches what the scenario generators do not aim at: names re-used after a removal, commands on
+// layers left behind by earlier commands of the same history, hand-made mounts and edits in between.
+func history(r *rng.R) lcw.Input {
+	ws, in := world(r, r.Chance(3, 4))
+	cfg := in.Cfg
+	names := lcw.LayerNames(ws)
+	var removed []string
+	pick := func() string {
+		if len(names) > 0 && r.Chance(7, 8) {
+			return names[r.Intn(len(names))]
+		}
+		return lcw.PickName(r)
+	}
+	fresh := func() string {
+		if len(removed) > 0 && r.Chance(1, 2) {
+			return removed[r.Intn(len(removed))] // a name that was in use before
+		}
+		return r.Pick([]string{"newlayer", "n2", "work", "w-1"})
+	}
+	n := 3 + r.Intn(5)
+	for i := 0; i < n; i++ {
+		var s lcw.StepIn
+		switch r.Intn(17) {
+		case 0, 1, 2:
+			s = step("mount", pick(), "", false)
+		case 3:
+			s = step("umount", pick(), "", false)
+		case 4:
+			s = step("umount", "", "", true)
+		case 5, 6:
+			nn := fresh()
+			s = step("add", nn, r.Pick(append(append([]string{}, names...), "")), false)
+			names = append(names, nn)
+		case 7:
+			nn := fresh()
+			s = step("rename", pick(), nn, false)
+			names = append(names, nn)
+		case 8:
+			s = step("rebase", pick(), r.Pick(append(append([]string{}, names...), "")), false)
+		case 9, 10:
+			t := pick()
+			s = step("remove", t, "", r.Chance(1, 3))
+			removed = append(removed, t)
+		case 11:
+			s = step("mkdirs", pick(), "", false)
+		case 12:
+			s = step("shake", "", "", false)
+		case 13: // a hand-made mount or umount below some build root
+			t := pick()
+			if r.Bool() {
+				s = kmount("tmpfs", cfg.Layers+"/"+t+"/"+cfg.BuildRoot+"/"+r.Pick(lcw.MinimalDirs), "tmpfs", 0, "")
+			} else {
+				s = kumount(cfg.Layers + "/" + t + "/" + cfg.BuildRoot + r.Pick([]string{"", "/proc", "/dev", "/var/db/repos", "/mnt/gen"}))
+			}
+		case 14: // somebody writes a file into a layer
+			t := pick()
+			s = lcw.StepIn{Cmd: lcw.Cmd{Kind: "edit", A: cfg.Layers + "/" + t + "/" + r.Pick([]string{"notes.txt",
+				cfg.BuildRoot + "/root/.profile", cfg.BuildRoot + "/home/user-data", "packages/app-1.tbz2", "generated/out.txt",
+				"overlayfs/upperdir/etc-conf", "overlayfs/workdir/leftover"}), B: "user data\n"}}
+		case 15:
+			s = step("chroot", pick(), "", false)
+		default:
+			s = step("probe", "", "", false)
+		}
+		if s.Cmd.Kind != "kmount" && s.Cmd.Kind != "kumount" && s.Cmd.Kind != "edit" {
+			s.Env = lcw.Env{Pretend: r.Chance(1, 10), Force: r.Chance(1, 10), Verbose: r.Chance(1, 6)}
+			if r.Chance(1, 4) {
+				s.Users = genUsers(r, ws, 3)
+			}
+		}
+		in.Steps = append(in.Steps, s)
+	}
+	return in
 }
 
 func world(r *rng.R, healthy bool) (lcw.WorldSpec, lcw.Input) {
